@@ -29,10 +29,12 @@ ASSUMPTIONS = [
 ]
 FLOORS = {'quick': {'nontrivial': 10, 'runs': 100, 'labels_checked': 100,
                     'wipe_commands': 3, 'mark_commands': 3,
-                    'marker_counts_checked': 60},
+                    'marker_counts_checked': 60,
+                    'tail_schedules': 3},
           'thorough': {'nontrivial': 150, 'runs': 1500,
                        'labels_checked': 1500, 'wipe_commands': 40,
-                       'mark_commands': 40, 'marker_counts_checked': 800}}
+                       'mark_commands': 40, 'marker_counts_checked': 800,
+                       'tail_schedules': 40}}
 SIZES = {'quick': 32, 'thorough': 400}
 TIMEOUT = {'quick': 170, 'thorough': 1700}
 
